@@ -33,7 +33,8 @@ def actionName : Action → String
   | .noApiAtAll => "noApiAtAll" | .none => "none" | .create => "create" | .patch => "patch" | .delete => "delete"
 
 def outcomeName : Option OutcomeClass → J
-  | some .ok => .str "ok" | some .retry => .str "retry" | some .precond => .str "precond" | none => .null
+  | some .ok => .str "ok" | some .retry => .str "retry" | some .precond => .str "precond"
+  | some .permFail => .str "permFail" | some .raised => .str "raised" | none => .null
 
 def methodName : Method → String
   | .post => "POST" | .patch => "PATCH" | .delete => "DELETE"
